@@ -37,17 +37,17 @@ type Scenario struct {
 
 // Stats accumulate over a search.
 type Stats struct {
-	Schedules   int
-	Steps       int
-	Points      int
-	MaxThreads  int
-	HBKeys      map[uint64]struct{}
-	Outcomes    map[string]int
-	Notes       map[string]int
-	Pruned      int
-	Samples     []any
-	Complete    bool
-	BoundDone   int
+	Schedules  int
+	Steps      int
+	Points     int
+	MaxThreads int
+	HBKeys     map[uint64]struct{}
+	Outcomes   map[string]int
+	Notes      map[string]int
+	Pruned     int
+	Samples    []any
+	Complete   bool
+	BoundDone  int
 }
 
 func choicesOf(x *vsched.Exec) []int {
